@@ -22,6 +22,7 @@ RECORDERS = [
     ("num-rec-big", lambda s, q: ["num-record", "rec", s + 1, 26, 30 if q else 120, 1]),
     ("ind", lambda s, q: ["ind-record", s, 36, 40 if q else 200, 1]),
     ("convert", lambda s, q: ["convert-record", s, 6, 60 if q else 300]),
+    ("doc", lambda s, q: ["doc-record", s]),
 ]
 
 
@@ -35,6 +36,8 @@ def transcripts(chk, builds, wd, env, quick, recorders=RECORDERS):
             a = mk(chk.seed, quick)
             e = dict(os.environ)
             e.update(env)
+            if name == "doc" and tag != "default" and res[name].get("default"):
+                e["YV_DOC_REF"] = res[name]["default"]
             r = subprocess.run([yv] + [str(x) for x in a[:1]] + [str(x) for x in a[1:]] + [f] if not name.startswith("num-") else
                                [yv] + [str(x) for x in a] + [f], env=e, stdout=subprocess.PIPE, stderr=subprocess.PIPE, text=True, timeout=1800)
             if r.returncode != 0:
